@@ -86,9 +86,76 @@ def mutate(r, text):
     return text[:i] + text[j:]
 
 
+_variants = [0]
+
+
+def shard_extra():
+    return {"statement_token_variants_checked": _variants[0]}
+
+
+WRAPPERS = {
+    "component": ("module w\ntype t\n", "\nend type t\nend module w\n"),
+    "tb": ("module w\ntype t\ninteger :: i\ncontains\n", "\nend type t\nend module w\n"),
+    "module": ("module w\n", "\nend module w\n"),
+    "exec": ("subroutine w(a)\n", "\n10 continue\nend subroutine w\n"),
+    "interface": ("module w\ninterface gen\n", "\nend interface gen\nend module w\n"),
+    "unit": ("", "\nend\n"),
+}
+
+
+def _wrapper_for(st):
+    k = st.kind
+    if k in ("tb_proc", "tb_generic", "tb_final"):
+        return "tb"
+    if k in ("proc_comp",):
+        return "component"
+    if k in ("module_proc",):
+        return "interface"
+    if k in ("module", "submodule", "program", "subroutine", "function", "block_data"):
+        return "unit"
+    if k in ("attr", "type_decl", "use", "implicit", "import", "type_def", "enum", "enumerator", "interface"):
+        return "module" if st.block is not None and st.block.kind == "module" else "exec"
+    return "exec"
+
+
+def token_variants(text, nofuse=False):
+    """All single edits of a statement at token level: delete 1-3 adjacent tokens, duplicate a token,
+    swap two adjacent tokens.  Yields (description, new text)."""
+    from vf import lexer
+    try:
+        toks = lexer.lex_line(text)
+    except lexer.LexError:
+        return
+    # recover offsets
+    spans = []
+    i = 0
+    for k, t in toks:
+        j = text.index(t, i)
+        spans.append((j, j + len(t)))
+        i = j + len(t)
+    n = len(spans)
+    for a in range(n):
+        for k in (1, 2, 3):
+            if a + k <= n:
+                yield ("del%d@%d" % (k, a), text[:spans[a][0]] + text[spans[a + k - 1][1]:])
+        yield ("dup@%d" % a, text[:spans[a][1]] + " " + text[spans[a][0]:])
+        if a + 1 < n:
+            yield ("swap@%d" % a, text[:spans[a][0]] + text[spans[a + 1][0]:spans[a + 1][1]] + " " +
+                   text[spans[a][0]:spans[a][1]] + text[spans[a + 1][1]:])
+
+
 def build(rnd, tier, flags):
     r = gen.R(rnd)
-    dom = r.wpick([(6, "mutated"), (2, "soup"), (1, "bytes")])
+    dom = r.wpick([(6, "mutated"), (2, "soup"), (1, "bytes"), (1, "stmt")])
+    if dom == "stmt":
+        std = r.pick(["f2003", "f2008"])
+        units, flat, g = progs.make_program(rnd, flags, f08=(std == "f2008"), max_units=1, max_stmts=3)
+        picks = []
+        for _ in range(min(6, len(flat))):
+            st, d = flat[r.n(0, len(flat) - 1)]
+            picks.append([_wrapper_for(st), gen.stmt_text(st)])
+        return {"src": "", "stmts": picks, "std": std, "ignore_comments": True, "reader": "string",
+                "meta": {"origin": "stmt", "differs": True}}, dict(g.excluded)
     std = r.pick(["f2003", "f2008"])
     meta = {"origin": dom}
     excl = {}
@@ -148,8 +215,30 @@ def _workfile(data):
     return p
 
 
+def _evaluate_stmts(case):
+    labels = ["origin=stmt", "std=" + case["std"]]
+    for wname, text in case["stmts"]:
+        pre, post = WRAPPERS[wname]
+        for desc, new in token_variants(text):
+            _variants[0] += 1
+            o = guarded_parse(pre + new + post, std=case["std"], ignore_comments=True, want_str=True, budget=WORK_BUDGET)
+            if o.kind in ("tree", "syntax"):
+                continue
+            if o.kind == "budget":
+                b = "budget-exceeded"
+            elif o.kind == "exit":
+                b = "SystemExit:%s" % o.where
+            else:
+                b = "%s:%s" % (type(o.exc).__name__, o.where)
+            return Result(False, b, True, labels, {"error": o.text, "statement": text, "edit": desc, "variant": new,
+                                                    "wrapper": wname})
+    return Result(True, None, True, labels)
+
+
 def evaluate(case):
     meta = case.get("meta", {})
+    if meta.get("origin") == "stmt":
+        return _evaluate_stmts(case)
     labels = ["origin=" + meta.get("origin", "?"), "reader=" + case["reader"], "std=" + case["std"]]
     path = None
     src = case["src"]
